@@ -92,10 +92,12 @@ func (e *SentinelEntry) Exit(exitOps ...ExitOption) {
 	if ctx == nil {
 		return
 	}
-	if options.err != nil {
-		ctx.SetError(options.err)
-	}
 	e.exitCtl.Do(func() {
+		// Record the error only on the first Exit: afterwards the context may already
+		// have been recycled for another entry.
+		if options.err != nil {
+			ctx.SetError(options.err)
+		}
 		defer func() {
 			if err := recover(); err != nil {
 				logging.Error(errors.Errorf("%+v", err), "Sentinel internal panic in SentinelEntry.Exit()")
